@@ -920,6 +920,17 @@ def _simplify_defensive(fn: ast.AST) -> int:
                             stmts[i] = new
                             count[0] += 1
                             continue
+                # S19  x = <constant> ; if C: x = E   ->   if C: x = E / else: x = <constant>     (a default that is overridden: each value under its own condition)
+                if isinstance(st, ast.If) and not st.orelse and out and plain_assign(out[-1]) is not None and isinstance(out[-1].value, (ast.Constant, ast.Tuple)) \
+                        and all(isinstance(x, ast.Constant) for x in (out[-1].value.elts if isinstance(out[-1].value, ast.Tuple) else [out[-1].value])):
+                    xn = plain_assign(out[-1])
+                    assigned_here = [x for x in ast.walk(st) if isinstance(x, ast.Name) and x.id == xn and isinstance(x.ctx, (ast.Store, ast.Del))]
+                    reads_here = [x for x in ast.walk(st) if isinstance(x, ast.Name) and x.id == xn and isinstance(x.ctx, ast.Load)]
+                    direct = [b for b in st.body if plain_assign(b) == xn]
+                    if xn not in par and not reads_here and len(assigned_here) == 1 and len(direct) == 1 and st.body[-1] is direct[0] \
+                            and not isinstance(direct[0].value, ast.Constant) and not isinstance(out[-1].value.value if isinstance(out[-1].value, ast.Constant) else None, bool):
+                        st.orelse = [out.pop()]
+                        count[0] += 1
                 # M1  v = A ; if B < v: v = B   ->   v = min(A, B)      (likewise max)
                 if isinstance(st, ast.If) and not st.orelse and len(st.body) == 1 and out and plain_assign(out[-1]) is not None and plain_assign(st.body[0]) == plain_assign(out[-1]) \
                         and isinstance(st.test, ast.Compare) and len(st.test.ops) == 1 and isinstance(st.test.ops[0], (ast.Lt, ast.Gt)):
@@ -2444,6 +2455,34 @@ def comprehension_rules(n: ast.AST) -> Optional[ast.AST]:
     return None
 
 
+def record_fields(ctor: ast.AST, module_assigns, module_tree) -> Optional[List[str]]:
+    if not isinstance(ctor, ast.Name):
+        return None
+    d = module_assigns.get(ctor.id)
+    if d is None and module_tree is not None:
+        for cd in module_tree.body:
+            if isinstance(cd, ast.ClassDef) and cd.name == ctor.id and len(cd.bases) == 1 and not cd.keywords and isinstance(cd.bases[0], ast.Call) \
+                    and not any(isinstance(x, (ast.FunctionDef, ast.AsyncFunctionDef)) and x.name in ("__new__", "__init__", "__iter__", "__getitem__", "__getattr__", "__getattribute__") for x in cd.body):
+                d = cd.bases[0]     # class _P(namedtuple("_P", "a b")): ... -- the record type with extra methods
+    if d is None and module_tree is not None:
+        for cd in module_tree.body:
+            # class _P(NamedTuple): a: int; b: float      /      @dataclass(frozen=True) class _P: a: int; b: float   (no methods that change construction)
+            if isinstance(cd, ast.ClassDef) and cd.name == ctor.id and not cd.keywords:
+                named = len(cd.bases) == 1 and (isinstance(cd.bases[0], ast.Name) and cd.bases[0].id == "NamedTuple" or isinstance(cd.bases[0], ast.Attribute) and cd.bases[0].attr == "NamedTuple")
+                if named and all(isinstance(x, ast.AnnAssign) and isinstance(x.target, ast.Name) and x.value is None or isinstance(x, ast.Expr) and isinstance(x.value, ast.Constant) or isinstance(x, ast.Pass) for x in cd.body):
+                    return [x.target.id for x in cd.body if isinstance(x, ast.AnnAssign)]
+    if d is None:
+        return None
+    if not (isinstance(d, ast.Call) and (isinstance(d.func, ast.Name) and d.func.id == "namedtuple" or isinstance(d.func, ast.Attribute) and d.func.attr == "namedtuple") and len(d.args) == 2 and not d.keywords):
+        return None
+    spec = d.args[1]
+    if isinstance(spec, ast.Constant) and isinstance(spec.value, str):
+        return spec.value.replace(",", " ").split()
+    if isinstance(spec, (ast.Tuple, ast.List)) and all(isinstance(x, ast.Constant) and isinstance(x.value, str) for x in spec.elts):
+        return [x.value for x in spec.elts]
+    return None
+
+
 def scalarise_records(fn: ast.AST, module_assigns: Dict[str, ast.AST], module_tree=None) -> int:
     """S16: `p = _Point(a, b)` where `_Point = namedtuple("_Point", ("x", "y"))` is a module-level record type and p is only ever read
     as `p.x` / `p.y`: one local per field."""
@@ -2451,30 +2490,21 @@ def scalarise_records(fn: ast.AST, module_assigns: Dict[str, ast.AST], module_tr
         return 0
     esc = escaping_names(fn) | params_of(fn)
 
-    def fields_of(ctor: ast.AST) -> Optional[List[str]]:
-        if not isinstance(ctor, ast.Name):
-            return None
-        d = module_assigns.get(ctor.id)
-        if d is None and module_tree is not None:
-            for cd in module_tree.body:
-                if isinstance(cd, ast.ClassDef) and cd.name == ctor.id and len(cd.bases) == 1 and not cd.keywords \
-                        and not any(isinstance(x, (ast.FunctionDef, ast.AsyncFunctionDef)) and x.name in ("__new__", "__init__", "__iter__", "__getitem__", "__getattr__", "__getattribute__") for x in cd.body):
-                    d = cd.bases[0]     # class _P(namedtuple("_P", "a b")): ... -- the record type with extra methods
-        if d is None:
-            return None
-        if not (isinstance(d, ast.Call) and (isinstance(d.func, ast.Name) and d.func.id == "namedtuple" or isinstance(d.func, ast.Attribute) and d.func.attr == "namedtuple") and len(d.args) == 2 and not d.keywords):
-            return None
-        spec = d.args[1]
-        if isinstance(spec, ast.Constant) and isinstance(spec.value, str):
-            return spec.value.replace(",", " ").split()
-        if isinstance(spec, (ast.Tuple, ast.List)) and all(isinstance(x, ast.Constant) and isinstance(x.value, str) for x in spec.elts):
-            return [x.value for x in spec.elts]
-        return None
+    def fields_of(ctor):
+        return record_fields(ctor, module_assigns, module_tree)
+
     n = 0
     up = parents(fn)
     done = set()
     for st in list(own_nodes(fn)):
         t = plain_assign(st)
+        if t and isinstance(st.value, ast.Call) and st.value.keywords and not any(k.arg is None for k in st.value.keywords):
+            fs = fields_of(st.value.func)
+            kw = {k.arg: k.value for k in st.value.keywords}
+            if fs is not None and len(st.value.args) + len(kw) == len(fs) and set(kw) == set(fs[len(st.value.args):]) \
+                    and [k.arg for k in st.value.keywords] == fs[len(st.value.args):]:
+                st.value.args = list(st.value.args) + [kw[f] for f in fs[len(st.value.args):]]      # P(a=x, b=y) with the fields in declaration order: P(x, y)
+                st.value.keywords = []
         if not t or t in esc or t in done or not isinstance(st.value, ast.Call) or st.value.keywords or any(isinstance(a, ast.Starred) for a in st.value.args):
             continue
         fields = fields_of(st.value.func)
@@ -2490,6 +2520,8 @@ def scalarise_records(fn: ast.AST, module_assigns: Dict[str, ast.AST], module_tr
             p = up.get(id(ld))
             if isinstance(p, ast.Call) and isinstance(p.func, ast.Name) and p.func.id == "tuple" and p.args == [ld] and not p.keywords:
                 return True         # tuple(record): the fields in order
+            if isinstance(p, ast.Call) and ld in p.args or isinstance(p, ast.keyword) and p.value is ld and p.arg is not None:
+                return True         # handed on as a whole: a namedtuple is the tuple of its fields
             return isinstance(p, ast.Assign) and p.value is ld and len(p.targets) == 1 and isinstance(p.targets[0], (ast.Tuple, ast.List)) and len(p.targets[0].elts) == len(fields) \
                 and not any(isinstance(x, ast.Starred) for x in p.targets[0].elts)
         if not all(unpacked(ld) or (isinstance(up.get(id(ld)), ast.Attribute) and up[id(ld)].value is ld and up[id(ld)].attr in fields and isinstance(up[id(ld)].ctx, ast.Load)) for ld in loads):
@@ -2498,8 +2530,10 @@ def scalarise_records(fn: ast.AST, module_assigns: Dict[str, ast.AST], module_tr
             p = up[id(ld)]
             if unpacked(ld):
                 tup = ast.copy_location(ast.Tuple(elts=[ast.Name(id=f"{t}__{f}", ctx=ast.Load()) for f in fields], ctx=ast.Load()), ld)
-                if isinstance(p, ast.Call):
+                if isinstance(p, ast.Call) and isinstance(p.func, ast.Name) and p.func.id == "tuple" and p.args == [ld] and not p.keywords:
                     replace_child(up.get(id(p)), p, tup)
+                elif isinstance(p, ast.Call):
+                    p.args[p.args.index(ld)] = tup
                 else:
                     p.value = tup
                 continue
